@@ -166,7 +166,11 @@ impl FormMultipartData {
             let escaped_dash_boundary = boundary.replace(SYMBOL.hyphen, SYMBOL.empty_string);
 
             current_string_is_boundary = false;
-            if b.len() >= escaped_dash_boundary.len() {
+            // the boundary is compared with hyphens removed (as in the checks above), so remove them from the line as well,
+            // otherwise a boundary with hyphens in the middle is never recognized
+            let line_without_hyphens : Vec<u8> = b.iter().filter(|byte| **byte != b'-').cloned().collect();
+            let b : &[u8] = &line_without_hyphens;
+            if escaped_dash_boundary.len() > 0 && b.len() >= escaped_dash_boundary.len() {
                 let boxed_sequence = FormMultipartData::find_subsequence(b, escaped_dash_boundary.as_bytes());
                 if boxed_sequence.is_some() {
                     current_string_is_boundary = true;
